@@ -273,7 +273,7 @@ func planCase(c *Ctx, fam *report.Family, famName string, cfg wire.PlanCfg, raw 
 		fam.Count(fmt.Sprintf("ok:entries<=%d", bucket(len(implCs))))
 	}
 	input := map[string]any{"packager": cfg.Packager, "umask": fmt.Sprintf("%o", cfg.Umask), "disable_globbing": cfg.NoGlob, "mtime": cfg.MTime, "contents": contentsToAny(raw)}
-	if perr != nil || showPlan(modelCs, modelErr) != showPlan(implCs, implErr) {
+	if perr != nil || !samePlan(showPlan(modelCs, modelErr), showPlan(implCs, implErr)) {
 		c.Rep.Disagree(report.Disagreement{Family: famName, What: "files.PrepareForPackager vs model plan", Input: input, Model: ans[0] + " :: " + showPlan(modelCs, modelErr), Impl: showPlan(implCs, implErr)})
 	}
 	if strings.HasPrefix(ans[1], "violated ") {
